@@ -33,19 +33,20 @@ Fixpoint insert_sorted {A} (key : A -> N) (x : A) (l : list A) : list A :=
 Definition sort_by_key {A} (key : A -> N) (l : list A) : list A :=
   fold_left (fun acc x => insert_sorted key x acc) l [].
 
+(* the last element whose key is <= a (elements are scanned in ascending key order) *)
+Fixpoint last_le_by {A} (key : A -> N) (l : list A) (a : N) (cur : option A) : option A :=
+  match l with
+  | [] => cur
+  | f :: t => if key f <=? a then last_le_by key t a (Some f) else cur
+  end.
+
 (* --- .eh_frame_hdr: binary search table, sorted by initial location (producer's job);
        gimli returns the last entry with start <= address, the first entry when there is none,
        and an error for an empty table --- *)
-Fixpoint last_le (l : list fde) (a : N) (cur : option fde) : option fde :=
-  match l with
-  | [] => cur
-  | f :: t => if f_start f <=? a then last_le t a (Some f) else cur
-  end.
-
 Definition hdr_lookup (sec : list fde) (svma : N) : option fde :=
   match sort_by_key f_start sec with
   | [] => None
-  | f0 :: t => last_le (f0 :: t) svma (Some f0)
+  | f0 :: t => last_le_by f_start (f0 :: t) svma (Some f0)
   end.
 
 (* --- DwarfCfiIndex::try_new: (relative pc, fde) for every FDE, in section order, then
@@ -75,16 +76,10 @@ Definition index_build (sec : list fde) (base_svma : N) : option (list (N * fde)
 (* fde_offset_for_relative_address.  [first_if_below] distinguishes the tree before the fix for
    S8 (Err(0) => None) from the fixed one (an address below the first FDE selects the first FDE,
    whose range check then fails, exactly like gimli's table). *)
-Fixpoint last_le_idx (l : list (N * fde)) (a : N) (cur : option fde) : option fde :=
-  match l with
-  | [] => cur
-  | (k, f) :: t => if k <=? a then last_le_idx t a (Some f) else cur
-  end.
-
 Definition index_lookup (first_if_below : bool) (idx : list (N * fde)) (rel : N) : option fde :=
   match idx with
   | [] => None
-  | (k0, f0) :: _ =>
-    if rel <? k0 then (if first_if_below then Some f0 else None)
-    else last_le_idx idx rel None
+  | e0 :: _ =>
+    if rel <? fst e0 then (if first_if_below then Some (snd e0) else None)
+    else option_map snd (last_le_by fst idx rel None)
   end.
